@@ -1,6 +1,7 @@
 import Gomjml.Core.Validate
 import Gomjml.Core.Api
 import Gomjml.Core.Lines
+import Gomjml.Core.ErrorValue
 /-! # C17 — validation errors are exact and never suppress the HTML (property theorems only) -/
 namespace Gomjml.Props.C17
 open Gomjml.Validate
@@ -109,5 +110,13 @@ theorem C17_prepass_source :
 /-- non-vacuity of `Rel`: behind a replaced piece of another length a kept byte is related to its shifted copy -/
 example : Rel [.keep [1, 2], .repl [3] [4, 5, 6], .keep [7, 10, 8]] 5 7 :=
   ⟨[.keep [1, 2], .repl [3] [4, 5, 6]], [7, 10, 8], [], 2, rfl, by decide, rfl, rfl⟩
+
+/-- **the error value keeps every report**: the reporter closure (first report creates the error, later ones are appended) yields
+    one detail per report, in the order of the reports — two reports that look alike (same tag, attribute and line: two elements
+    on one line) stay two details; without a report there is no error -/
+theorem C17_error_value (rs : List Gomjml.ErrorValue.Report) :
+    Gomjml.ErrorValue.collect rs =
+      (if rs = [] then none else some ⟨"MJML compilation error", rs.map Gomjml.ErrorValue.detailOf⟩) :=
+  Gomjml.ErrorValue.collect_spec rs
 
 end Gomjml.Props.C17
